@@ -304,6 +304,45 @@ def malformed_family(quick):
         yield ("if-expr", [("if-bad", text), ("db", 1), ("endif",)])
 
 
+# ------------------------------------------------------------------ conditionals and .include: a file boundary is no branch boundary
+
+def include_family():
+    """-> [(name, source, files, expected bytes | None = must be rejected)]"""
+    out = []
+    heads = [(".if 1", ".endif"), (".ifdef DEF1", ".endif"), (".ifndef NOPE", ".endif"), (".if 1\n.if 1", ".endif\n.endif")]
+    incs = [("plain", ".db 9\n", [9]), ("own-if", ".if 0\n.db 9\n.endif\n.db 7\n", [7]), ("own-if-else", ".if 0\n.db 9\n.else\n.db 6\n.endif\n", [6]),
+            ("stray-else", ".else\n.db 9\n", None), ("stray-endif", ".db 9\n.endif\n.db 8\n", None), ("stray-endif-first", ".endif\n", None),
+            ("unterminated-if", ".if 1\n.db 9\n", None), ("else-endif", ".else\n.db 9\n.endif\n", None)]
+    for hi, (h, t) in enumerate(heads):
+        for iname, inc, got in incs:
+            src = ".msp430\n.define DEF1 1\n.org 0x%x\n%s\n.db 1\n.include \"i.inc\"\n.db 2\n%s\n.db 3\n" % (BASE, h, t)
+            out.append(("%d-%s" % (hi, iname), src, {"i.inc": inc}, None if got is None else [1] + got + [2, 3]))
+    for iname, inc, got in incs:
+        src = ".msp430\n.org 0x%x\n.db 1\n.include \"i.inc\"\n.db 2\n" % BASE
+        out.append(("top-%s" % iname, src, {"i.inc": inc}, None if got is None else [1] + got + [2]))
+    return out
+
+
+def _work_include(job):
+    name, src, files, want = job
+    try:
+        r = asm.assemble(src, "hex", files=files)
+        got = observe(r)
+        if got[0] == "crash":
+            return name, src, files, "crash", got[1]
+        if want is None:
+            if got[0] == "ok":
+                return name, src, files, "malformed-accepted", "the included file ends a conditional it did not open (or leaves one open), yet the program assembled with exit status 0"
+            return name, src, files, None, None
+        if got[0] == "reject":
+            return name, src, files, "valid-rejected", "valid program rejected: " + " / ".join(l for l in r.out.split("\n") if "rror" in l)[:200]
+        if got[1] != want:
+            return name, src, files, "wrong-branches", "assembled bytes %s, expected %s" % (got[1], want)
+        return name, src, files, None, None
+    except Exception as e:
+        return name, src, files, "harness", "%s: %s" % (type(e).__name__, e)
+
+
 # ------------------------------------------------------------------ main
 
 def run(ctx):
@@ -372,6 +411,18 @@ def run(ctx):
     if len(res) < len(jobs):
         ctx.capped = True
     cov["families"]["structures"] = famc
+    # (iv) file boundaries
+    ijobs = include_family()
+    for name, src, files, kind, detail in R.pmap(_work_include, ijobs, chunk=4, deadline=ctx.deadline):
+        transitions += 1
+        if kind == "harness":
+            raise RuntimeError(detail)
+        outcomes["include:" + (kind or "agree")] = outcomes.get("include:" + (kind or "agree"), 0) + 1
+        states.add(("i", name, kind))
+        if kind:
+            ctx.violation({"include": name, "src": src}, kind, "[conditional across .include, case %s] %s" % (name, detail),
+                          {"kind": "include", "name": name})
+    cov["families"]["include-boundaries"] = len(ijobs)
     for fam, lines in check.sample(progs, 3):
         samples.append({"family": fam, "program": C.render(lines).split("\n"), "reference": list(C.run(lines, PREDEF))[:2]})
     nontrivial = sum(1 for s in states if s[0] == "s") + sum(1 for s in states if s[0] == "e" and (" " in s[1] or "!" in s[1]))
@@ -388,6 +439,12 @@ def run(ctx):
 
 
 def replay(rec):
+    if rec.get("kind") == "include":
+        for job in include_family():
+            if job[0] == rec["name"]:
+                r = _work_include(job)
+                return bool(r[3]), "%s\n-> %s %s" % (job[1], r[3], r[4])
+        return False, "case no longer exists"
     if rec["kind"] == "expr":
         outs, _ = pose_exprs([(rec["text"], rec["truth"])])
         g = outs[0] if isinstance(outs[0], str) else outs[0][0]
